@@ -166,10 +166,26 @@ Definition sizes_nonneg (es : list entry) : bool :=
 Definition rl_int_ge1 (L : rlimit) : bool :=
   match L with RFin m e => (1 <=? m) && (0 <=? e) | _ => false end.
 
+(* rl_exact S L : the ratio limit L = m*2^e is finite and >= 1, and every size a <= S that can reach
+   the ratio test satisfies  a * 2^max(-e,0) < 2^53  -- the range in which the rounded quotient
+   decides the exact comparison.  Integer limits (e >= 0): S < 2^53.  Dyadic limits such as
+   500.5 = 1001*2^-1 : S*2 < 2^53. *)
+Definition rl_exact (S : Z) (L : rlimit) : bool :=
+  match L with
+  | RFin m e =>
+      if 0 <=? e then (1 <=? m) && (S <? 2 ^ 53)
+      else (2 ^ (- e) <=? m) && (S * 2 ^ (- e) <? 2 ^ 53)
+  | _ => false
+  end.
+
 Definition limits_exact (L : limits) : bool :=
-  (0 <=? max_total L) && (max_total L <? 2 ^ 53)
-  && (0 <=? max_single L) && (max_single L <? 2 ^ 53)
-  && rl_int_ge1 (max_total_ratio L) && rl_int_ge1 (max_entry_ratio L).
+  (0 <=? max_total L) && (0 <=? max_single L)
+  && rl_exact (max_total L) (max_total_ratio L) && rl_exact (max_single L) (max_entry_ratio L).
+
+(* a finite limit that is a binary64 value or an int below 2^53 in magnitude towards +oo: all that the
+   one-sided soundness theorem needs (negative and small limits included) *)
+Definition rl_repr (L : rlimit) : bool :=
+  match L with RFin m e => (m <? 2 ^ 53) && (EMIN <=? e) | _ => true end.
 
 (* ------------------------------------------------------------------ open_zipfile / validate_zip_bytesio *)
 (* What zipfile.ZipFile(file_like) does is an oracle: whether the constructor raises, what infolist()
